@@ -147,6 +147,11 @@ def _load_from_file_system(hashed_grammar, path, p_time, cache_path=None):
                 gc.enable()
         if not isinstance(module_cache_item, _NodeCacheItem):
             return None
+        if p_time > module_cache_item.change_time:
+            # The file changed after this entry was saved; its modification
+            # time may still be older than the one of the cache file (e.g.
+            # a copy that preserves timestamps).
+            return None
     except Exception:
         # A missing, unreadable, truncated or otherwise corrupt cache file is
         # simply a cache miss.
